@@ -8,7 +8,7 @@ SPEC = {
         "101-103": "the same three for a request that selects the field several times (aliases / fragments): outcome, per-selection values in document order, number of resolver calls",
     },
     "corr_name": "Args.Model (parse_doc: defaults, then fragment bodies, then the operation; vtj; parse; prepare) vs graphql.Parse / PrepareQuery / Execute with reflect-built argument structs, field in the operation body, a named fragment or an inline fragment",
-    "coq_modules": ["Args.Model", "Args.Spec", "Args.Codec", "Args.Proofs", "Args.ProofsReject", "Args.ProofsInst", "Args.ProofsSubst", "Args.ProofsTotal", "Args.ProofsDoc", "Args.ProofsPaginated", "Gen.ArgParsers", "Args.Table"],
+    "coq_modules": ["Args.Model", "Args.Spec", "Args.Codec", "Args.Proofs", "Args.ProofsReject", "Args.ProofsInst", "Args.ProofsSubst", "Args.ProofsTotal", "Args.ProofsDoc", "Args.ProofsPaginated", "Gen.ArgParsers", "Args.Table", "Args.ModelBuilder", "Args.ProofsBuilder", "Args.ProofsRange", "Args.Check"],
     "harness_timeout": {"quick": 600, "thorough": 3000},
     "search": {"n": 6000, "timeout": 900},
     "trusted_base": [
